@@ -756,6 +756,16 @@ class HTTPSConnection(HTTPConnection):
             # Remove trailing '.' from fqdn hostnames to allow certificate validation
             server_hostname_rm_dot = server_hostname.rstrip(".")
 
+            assert_hostname = self.assert_hostname
+            assert_fingerprint = self.assert_fingerprint
+            if self.proxy_is_forwarding and self.proxy_config is not None:
+                # The TLS peer of a forwarded request is the proxy itself,
+                # so the checks configured for the proxy are the ones to apply.
+                if self.proxy_config.assert_hostname is not None:
+                    assert_hostname = self.proxy_config.assert_hostname
+                if self.proxy_config.assert_fingerprint is not None:
+                    assert_fingerprint = self.proxy_config.assert_fingerprint
+
             sock_and_verified = _ssl_wrap_socket_and_match_hostname(
                 sock=sock,
                 cert_reqs=self.cert_reqs,
@@ -771,8 +781,8 @@ class HTTPSConnection(HTTPConnection):
                 server_hostname=server_hostname_rm_dot,
                 ssl_context=self.ssl_context,
                 tls_in_tls=tls_in_tls,
-                assert_hostname=self.assert_hostname,
-                assert_fingerprint=self.assert_fingerprint,
+                assert_hostname=assert_hostname,
+                assert_fingerprint=assert_fingerprint,
             )
             self.sock = sock_and_verified.socket
 
